@@ -10,6 +10,8 @@ def build(run):
     TH.finite_obligations(run, run.finding_status("E5"))
     run.verify_c([TH.kernel_contract()], registry=TH.scalar_call_contracts())
     TH.init_ownership(run)
+    run.py_contract(TH.PF, "ThermalProperties._run_c_thermal_properties", lambda: TH.c_driver(run), TH.replay_c_driver)
+    TH.py_drivers(run)
     run.axioms += ["A-LIBM: exp>0, exp(x)>1 for x>0, exp(x)<1 for x<0, sinh sign, cosh>=1 (instances added per query)",
                    "AX-SINH sinh(y)>=y for y>=0 (C_V <= k_B), AX-TANH tanh(y)<=y (dC_V/dT >= 0): cited, only the reductions are decided",
                    "limits T->0 / T->infinity (S >= 0, C_V -> k_B) are cited, not decided"]
